@@ -37,7 +37,7 @@ Qed.
 (* the common fragment: prefix / suffix only *)
 Definition frag_dirs (d : pdirs) : Prop :=
   pd_ns d = "" /\ pd_labels d = [] /\ pd_common_labels d = [] /\ pd_common_annos d = [] /\
-  pd_cmgens d = [] /\ pd_secgens d = [] /\ pd_genopts d = None /\ (pd_replicas d = [] /\ pd_images d = []) /\
+  pd_cmgens d = [] /\ pd_secgens d = [] /\ pd_genopts d = None /\ (pd_replicas d = [] /\ pd_images d = [] /\ pd_patches d = []) /\
   no_char ","%char (pd_prefix d) = true /\ no_char ","%char (pd_suffix d) = true.
 
 Inductive frag : ptree -> Prop :=
@@ -207,7 +207,9 @@ Section Bridge.
     else if String.eqb k "SuffixTransformer" then suffix_transform cs gen_name_suffix_fs gen_suffix_skip (pd_suffix d) m
     else Ok m.
   Proof.
-    intros (Hns & Hl & Hcl & Hca & _ & _ & _ & [Hrp Him] & _). unfold run_kind, label_dirs. rewrite Hns, Hl, Hcl, Hca, Hrp, Him.
+    intros (Hns & Hl & Hcl & Hca & _ & _ & _ & (Hrp & Him & Hpp) & _). unfold run_kind, label_dirs. rewrite Hns, Hl, Hcl, Hca, Hrp, Him, Hpp.
+    destruct (String.eqb k "PatchTransformer") eqn:E0.
+    { apply String.eqb_eq in E0. subst k. reflexivity. }
     destruct (String.eqb k "NamespaceTransformer") eqn:E1.
     { apply String.eqb_eq in E1. subst k. reflexivity. }
     destruct (String.eqb k "PrefixTransformer"); [reflexivity|].
@@ -246,8 +248,8 @@ Section Bridge.
   Lemma frag_empty d (ents : list ptree) :
     frag_dirs d -> is_empty_kust d ents = Compose.is_empty_kust (Compose.Dir (map proj ents) (pd_prefix d) (pd_suffix d)).
   Proof.
-    intros (Hns & Hl & Hcl & Hca & Hc & Hs & Hg & [Hrp Him] & _). destruct ents; [|reflexivity].
-    unfold is_empty_kust, dirs_empty. rewrite Hns, Hl, Hcl, Hca, Hc, Hs, Hg, Hrp, Him. cbn. rewrite !andb_true_r. reflexivity.
+    intros (Hns & Hl & Hcl & Hca & Hc & Hs & Hg & (Hrp & Him & Hpp) & _). destruct ents; [|reflexivity].
+    unfold is_empty_kust, dirs_empty. rewrite Hns, Hl, Hcl, Hca, Hc, Hs, Hg, Hrp, Him, Hpp. cbn. rewrite !andb_true_r. reflexivity.
   Qed.
 
   Definition acc_sim (m : list resource) (c : list Compose.resource) : Prop := Forall W m /\ Forall2 Rel m c.
